@@ -630,6 +630,18 @@ func genJournalC08(r *rand.Rand, maxEntries int) string {
 			lines = append(lines, "")
 		}
 	}
+	// a transaction being typed: header with a payee seen before, then a blank line (this is
+	// where inline completion offers the payee's postings)
+	if len(g.payees) > 0 && r.IntN(3) == 0 {
+		h := g.date()
+		if r.IntN(3) == 0 {
+			h += " " + g.pick([]string{"*", "!"})
+		}
+		lines = append(lines, h+" "+g.pick(g.payees), g.pick([]string{"", "    ", "  ", "\t"}))
+		if r.IntN(2) == 0 {
+			lines = append(lines, "")
+		}
+	}
 	nl := "\n"
 	text := strings.Join(lines, nl)
 	if r.IntN(4) != 0 {
